@@ -52,17 +52,13 @@ fn check_routing_rules(context: &CheckerContext) -> GenericResult<()> {
                         (distance, duration, to.distance)
                     }
                     (prev, Stop::Transit(transit)) => {
+                        // NOTE: the break is taken somewhere on the leg, routing data does not say where:
+                        // time driven before it is taken from the schedule
                         let prev_departure = parse_time(&prev.schedule().departure);
                         let next_arrival = parse_time(&transit.time.arrival);
-                        // NOTE an edge case: duration of break will be counted in transit stop
-                        let duration = if next_arrival == prev_departure {
-                            0.
-                        } else {
-                            parse_time(&transit.time.departure) - next_arrival
-                        };
-                        (0_i64, duration as i64, total_distance)
+                        (0_i64, (next_arrival - prev_departure) as i64, total_distance)
                     }
-                    (Stop::Transit(_), Stop::Point(to)) => {
+                    (Stop::Transit(transit), Stop::Point(to)) => {
                         assert!(leg_idx > 0);
                         let from = tour
                             .stops
@@ -71,7 +67,9 @@ fn check_routing_rules(context: &CheckerContext) -> GenericResult<()> {
                             .as_point()
                             .expect("two consistent transit stops are not supported");
                         let (distance, duration) = get_matrix_data(from, to)?;
-                        (distance, duration, to.distance)
+                        // NOTE: part of the leg was driven before the break
+                        let driven = parse_time(&transit.time.arrival) - parse_time(&from.time.departure);
+                        (distance, duration - driven as i64, to.distance)
                     }
                 };
 
